@@ -78,11 +78,14 @@ type nsOpts struct {
 	snapshotEntries uint64
 	overhead        uint64
 	seed            int64
+	// eagerPool: the snapshot worker pool handles a save / recover notification at
+	// once (before the notifying worker goes on); otherwise when its turn comes
+	eagerPool bool
 }
 
 func (o nsOpts) String() string {
-	return fmt.Sprintf("voters=%d E=%d H=%d cq=%t pv=%t quiesce=%t snapEntries=%d overhead=%d seed=%d",
-		o.voters, o.electionRTT, o.heartbeatRTT, o.checkQuorum, o.preVote, o.quiesce, o.snapshotEntries, o.overhead, o.seed)
+	return fmt.Sprintf("voters=%d E=%d H=%d cq=%t pv=%t quiesce=%t snapEntries=%d overhead=%d seed=%d eagerpool=%t",
+		o.voters, o.electionRTT, o.heartbeatRTT, o.checkQuorum, o.preVote, o.quiesce, o.snapshotEntries, o.overhead, o.seed, o.eagerPool)
 }
 
 // nsSM is the instrumented user state machine (regular, in memory).
@@ -155,6 +158,10 @@ type nsReplica struct {
 	queuedHint uint64
 	procHint   uint64
 	ticksSeen  int
+	// snapshot worker pool state of the shard (see nsPipeline)
+	saveReady, recoverReady   bool
+	hasSaveJob, hasRecoverJob bool
+	saveJob, recoverJob       rsm.Task
 }
 
 type nsReq struct {
@@ -463,6 +470,7 @@ func (s *nsSim) startReplica(r *nsReplica) {
 	}
 	r.inc++
 	r.ticksSeen, r.procHint, r.queuedHint = 0, 0, 0
+	r.saveReady, r.recoverReady, r.hasSaveJob, r.hasRecoverJob = false, false, false, false
 	r.smi = &nsSM{sim: s, rep: r, inc: r.inc}
 	smi := r.smi
 	create := func(_ uint64, _ uint64, done <-chan struct{}) rsm.IManagedStateMachine {
@@ -477,7 +485,7 @@ func (s *nsSim) startReplica(r *nsReplica) {
 		}
 		var err error
 		n, err = newNode(r.peers, !r.join, cfg, nhc, create, snapshotter, lr,
-			&dummyEngine{}, nil, nil, nil,
+			&nsPipeline{s: s, r: r}, nil, nil, nil,
 			func(m pb.Message) { s.onSend(r, m) },
 			nr, s.pool, s.ldb, nil, newSysEventListener(nil, nil))
 		if err != nil {
@@ -892,6 +900,52 @@ func (s *nsSim) applyReplica(r *nsReplica) {
 	s.flushApplyViolations()
 }
 
+// nsPipeline is the engine as the node sees it. The step / commit / apply
+// notifications are not needed (the simulator runs those workers on its own
+// schedule); the save / recover notifications are kept faithfully, because the
+// snapshot worker pool of engine.go is purely notification driven: it looks for a
+// job of a shard only after that shard was flagged ready (workerPoolMain takes the
+// ready map, then getSaveJob / getRecoverJob), its ticker does not look for jobs.
+type nsPipeline struct {
+	dummyEngine
+	s *nsSim
+	r *nsReplica
+}
+
+func (p *nsPipeline) setSaveReady(uint64) {
+	p.r.saveReady = true
+	if p.s.opts.eagerPool {
+		// the pool goroutine wins the race: it handles the notification before the
+		// notifying worker executes its next statement
+		p.s.poolPickup(p.r)
+	}
+}
+
+func (p *nsPipeline) setRecoverReady(uint64) {
+	p.r.recoverReady = true
+	if p.s.opts.eagerPool {
+		p.s.poolPickup(p.r)
+	}
+}
+
+// poolPickup = workerPoolMain handling the ready notifications of one shard: the
+// ready flag is consumed, then the request (if it is there) becomes a pending job.
+func (s *nsSim) poolPickup(r *nsReplica) {
+	n := r.n
+	if r.saveReady {
+		r.saveReady = false
+		if req, ok := n.ss.getSaveReq(); ok {
+			r.saveJob, r.hasSaveJob = req, true
+		}
+	}
+	if r.recoverReady {
+		r.recoverReady = false
+		if req, ok := n.ss.getRecoverReq(); ok {
+			r.recoverJob, r.hasRecoverJob = req, true
+		}
+	}
+}
+
 // ssWorker = workerPool + ssWorker for a single node (save and recover jobs).
 func (s *nsSim) ssWorker(r *nsReplica) {
 	if !r.alive {
@@ -899,14 +953,19 @@ func (s *nsSim) ssWorker(r *nsReplica) {
 	}
 	n := r.n
 	s.guard(fmt.Sprintf("snapshot worker r%d", r.id), func() {
-		if req, ok := n.ss.getSaveReq(); ok {
+		s.poolPickup(r)
+		if r.hasSaveJob {
+			req := r.saveJob
+			r.hasSaveJob = false
 			if err := n.save(req); err != nil {
 				panic(err)
 			}
 			n.saveDone()
 			s.flag("ev-snapshot-saved")
 		}
-		if req, ok := n.ss.getRecoverReq(); ok {
+		if r.hasRecoverJob {
+			req := r.recoverJob
+			r.hasRecoverJob = false
 			idx, err := n.recover(req)
 			if err != nil {
 				panic(err)
